@@ -150,7 +150,8 @@ def loadEv (g : Garbage) (buf : List Nat) (c : Cur) (off1 : Int) (r1 : List Read
     -- int64_t clock = stream_evclock(stream, stream->cur_ev);
     let clock := clockAt g buf off1
     let r3 := r2 ++ [(off1 + 4, 8)]
-    if c.unsorted = false ∧ clock < c.lastclock then (.err .clock, c1, r3)
+    -- (the first event of a stream has no previous clock: `!first`)
+    if c.unsorted = false ∧ c.hasEv = true ∧ clock < c.lastclock then (.err .clock, c1, r3)
     else (.ok, { c1 with lastclock := clock }, r3)
 
 /-- `stream_step`, statement by statement.  Returns the result, the new
